@@ -827,8 +827,15 @@ func (e *encEngine) consumers() {
 				ast.Inspect(x, func(m ast.Node) bool {
 					switch v := m.(type) {
 					case *ast.CallExpr:
-						if cal := c.P.CalleeAny(fi, v); cal != nil && cal.FullName() == "net/url.PathUnescape" {
-							unescaped = true
+						if cal := c.P.CalleeAny(fi, v); cal != nil {
+							if cal.FullName() == "net/url.PathUnescape" {
+								unescaped = true
+							}
+							// a helper of the module that decodes (transitively calls url.PathUnescape)
+							if cf := c.P.Funcs[cal]; cf != nil && c.reachesExternal(cf, "net/url.PathUnescape") {
+								unescaped = true
+								fromKey = true
+							}
 						}
 					case *ast.Ident:
 						o, ok := info.Uses[v].(*types.Var)
